@@ -69,7 +69,7 @@ def _check_calls(P, ctx, case, tag):
             continue
         ref = P.P_ref(x)
         with np.errstate(all="ignore"):
-            bad = ~((lp == ref) | (np.abs(lp - ref) <= tol * (np.abs(ref) + 1)))
+            bad = ~((lp == ref) | (np.isfinite(ref) & (np.abs(lp - ref) <= tol * (np.abs(ref) + 1))))
         if bad.any():
             j = int(np.argmax(bad))
             ctx.fail(f"{tag}prior-mismatch", f"likelihood call {i} ({c.get('site')}): attached log_prior[{j}]={lp[j]!r} but the prior of "
@@ -129,7 +129,7 @@ def run_case(case, ctx):
                 lp = np.asarray(_check_one["lp"]).reshape(-1)
                 tol = 1e-12 if _check_one.get("lp_width") == "float64" else 4e-6
                 with np.errstate(all="ignore"):
-                    bad = ~((lp == ref) | (np.abs(lp - ref) <= tol * (np.abs(ref) + 1)))
+                    bad = ~((lp == ref) | (np.isfinite(ref) & (np.abs(lp - ref) <= tol * (np.abs(ref) + 1))))
                 if lp.shape != ref.shape or bad.any():
                     ctx.fail("convert:prior-mismatch", "convert_to_samples handed the likelihood a log_prior that is not the prior of those points", case)
         labels.append("convert_to_samples")
